@@ -35,6 +35,8 @@ type Spec[S any] struct {
 	Key func(s S) string
 	// After is checked after every step ("" = fine).
 	After func(s S) string
+	// OnNew is checked only when a step reaches a state not seen before (needs Key).
+	OnNew func(s S) string
 	// AtEnd is run on every maximal / every visited path end if EndEvery (drain and compare…).
 	AtEnd func(s S) string
 	Depth int
@@ -200,6 +202,12 @@ func Explore[S any](r *ev.Run, sp *Spec[S]) *Stats {
 					}
 					seen[k] = true
 					st.States++
+					if sp.OnNew != nil {
+						if bad := safeStr(sp.OnNew, s); bad != "" {
+							report(path, bad)
+							continue
+						}
+					}
 				} else {
 					st.States++
 				}
